@@ -82,10 +82,8 @@ func c05Run(a c05Alg, size int, key []byte, fixedCtor bool, ops []c05Op) error {
 		case 'r':
 			h.Reset()
 		case 's':
-			pre := append(make([]byte, 0, len(op.prefix)+70), op.prefix...)
-			got := h.Sum(pre)
-			if !bytes.Equal(got[:len(op.prefix)], op.prefix) || !bytes.Equal(got[len(op.prefix):], op.want) {
-				return fmt.Errorf("op %d: Sum(prefix %x) = %x, RFC 7693 value %x", i, op.prefix, got, op.want)
+			if _, err := sumInto(h, op.prefix, op.want); err != nil {
+				return fmt.Errorf("op %d: RFC 7693 value %x: %v", i, op.want, err)
 			}
 		}
 	}
@@ -362,6 +360,56 @@ func TestC05(t *testing.T) {
 	}
 	c.Exhaustive(fmt.Sprintf("length 0..%d x size class x key-length class x dispatch variant (whole + split-at-block + reset-reuse)", maxLen), total)
 
+	// concurrency part: one-shot helpers and separate hash objects used from several goroutines at once
+	{
+		failure, calls, ks := concPart("C05", ev.Scale(6000, 40000), func(d *drbg, w int) []concJob {
+			var jobs []concJob
+			for i := 0; i < 8; i++ {
+				msg := d.bytes(d.intn(700))
+				switch i % 4 {
+				case 0:
+					jobs = append(jobs, concJob{name: fmt.Sprintf("blake2b.Sum512(%d bytes)", len(msg)), run: func() []byte { s := blake2b.Sum512(msg); return s[:] }, want: ref.Blake2bSum(64, nil, msg)},
+						concJob{name: fmt.Sprintf("blake2b.Sum256(%d bytes)", len(msg)), run: func() []byte { s := blake2b.Sum256(msg); return s[:] }, want: ref.Blake2bSum(32, nil, msg)})
+				case 1:
+					jobs = append(jobs, concJob{name: fmt.Sprintf("blake2s.Sum256(%d bytes)", len(msg)), run: func() []byte { s := blake2s.Sum256(msg); return s[:] }, want: ref.Blake2sSum(32, nil, msg)})
+				case 2:
+					size, key, cut := 1+d.intn(64), d.bytes(d.intn(65)), d.intn(len(msg)+1)
+					jobs = append(jobs, concJob{name: fmt.Sprintf("blake2b.New(%d, %d-byte key)+Write+Sum(%d bytes)", size, len(key), len(msg)), run: func() []byte {
+						h, err := blake2b.New(size, key)
+						if err != nil {
+							return nil
+						}
+						h.Write(msg[:cut])
+						h.Sum(nil)
+						h.Write(msg[cut:])
+						return h.Sum(nil)
+					}, want: ref.Blake2bSum(size, key, msg)})
+				default:
+					key, cut := d.bytes(d.intn(33)), d.intn(len(msg)+1)
+					jobs = append(jobs, concJob{name: fmt.Sprintf("blake2s.New256(%d-byte key)+Write+Sum(%d bytes)", len(key), len(msg)), run: func() []byte {
+						h, err := blake2s.New256(key)
+						if err != nil {
+							return nil
+						}
+						h.Write(msg[:cut])
+						h.Write(msg[cut:])
+						return h.Sum(nil)
+					}, want: ref.Blake2sSum(32, key, msg)})
+				}
+			}
+			return jobs
+		})
+		if failure != "" {
+			what := "concurrent use of separate objects / one-shot helpers: " + failure
+			c.Violation(what, "")
+			t.Fatalf("VF-VIOLATION: property=C05 %s", what)
+		}
+		for _, k := range ks {
+			c.Case(true, fmt.Sprintf("concurrent|k=%d", k), fmt.Sprintf("concurrency:k=%d", k))
+		}
+		c.ClassN("concurrency:calls", calls)
+	}
+	flushSumLayouts(c)
 	// third implementation on the generated inputs (judges the reference only)
 	switch n, err := py.run(); {
 	case err == nil:
